@@ -540,4 +540,78 @@ theorem one_sided_unbalanced (pv xp : List ℚ) (hl : xp.length = pv.length)
     rw [dot_neg_left] at this
     linarith
 
+/-! ## Part 5: the signed matrix `_get` builds -/
+
+theorem dot_append : ∀ (a x b y : List ℚ), a.length = x.length → dot (a ++ b) (x ++ y) = dot a x + dot b y := by
+  intro a
+  induction a with
+  | nil => intro x b y h; cases x with
+    | nil => simp [dot]
+    | cons _ _ => simp at h
+  | cons a0 as ih =>
+    intro x b y h
+    cases x with
+    | nil => simp at h
+    | cons x0 xs =>
+      simp only [List.length_cons, Nat.add_right_cancel_iff] at h
+      simp only [List.cons_append, dot, ih xs b y h]
+      ring
+
+theorem dot_map_mul_left (c : ℚ) : ∀ (r x : List ℚ), dot (r.map (· * c)) x = c * dot r x := by
+  intro r
+  induction r with
+  | nil => intro x; cases x <;> simp [dot]
+  | cons a as ih =>
+    intro x
+    cases x with
+    | nil => simp [dot]
+    | cons b bs => simp only [List.map_cons, dot, ih bs]; ring
+
+theorem lookupAll_length (subs : List (String × Comp)) : ∀ (keys : List String) (cs : List Comp),
+    lookupAll subs keys = some cs → cs.length = keys.length := by
+  intro keys
+  induction keys with
+  | nil => intro cs h; simp [lookupAll] at h; subst h; rfl
+  | cons k r ih =>
+    intro cs h
+    unfold lookupAll at h
+    split at h
+    · rename_i c cs' _ h2
+      injection h with h
+      subst h
+      simp [ih cs' h2]
+    · cases h
+
+/-- one side of a row of the matrix: every species of `keys` gets the sign `sgn` -/
+theorem side_row (reactants keys : List String) (cs : List Comp) (ck : Int) (sgn : ℚ)
+    (hlen : cs.length = keys.length)
+    (hs : ∀ s ∈ keys, (if reactants.contains s then (-1 : ℚ) else 1) = sgn) :
+    (keys.zip cs).map (fun p => signedEntry reactants ck p.1 p.2) = (cs.map (·.get ck)).map (· * sgn) := by
+  induction keys generalizing cs with
+  | nil => cases cs with
+    | nil => rfl
+    | cons _ _ => simp at hlen
+  | cons k r ih =>
+    cases cs with
+    | nil => simp at hlen
+    | cons c cs' =>
+      simp only [List.length_cons, Nat.add_right_cancel_iff] at hlen
+      simp only [List.zip_cons_cons, List.map_cons, List.cons.injEq]
+      refine ⟨?_, ih cs' hlen (fun s hs' => hs s (List.mem_cons_of_mem _ hs'))⟩
+      unfold signedEntry
+      rw [hs k (List.mem_cons_self ..)]
+
+/-- a row of `A` applied to (reactant coefficients ++ product coefficients) is
+    (amount in the products) − (amount in the reactants) -/
+theorem signed_row_dot (reac prod : List String) (rc pc : List Comp) (ck : Int) (xr xp : Vec)
+    (hdis : ∀ s ∈ prod, s ∉ reac) (hlr : rc.length = reac.length) (hlp : pc.length = prod.length)
+    (hxr : xr.length = reac.length) :
+    dot (((reac ++ prod).zip (rc ++ pc)).map fun p => signedEntry reac ck p.1 p.2) (xr ++ xp)
+      = dot (pc.map (·.get ck)) xp - dot (rc.map (·.get ck)) xr := by
+  rw [List.zip_append hlr.symm, List.map_append]
+  rw [side_row reac reac rc ck (-1) hlr (by intro s hs; simp [hs])]
+  rw [side_row reac prod pc ck 1 hlp (by intro s hs; simp [hdis s hs])]
+  rw [dot_append _ _ _ _ (by simp [hlr, hxr]), dot_map_mul_left, dot_map_mul_left]
+  ring
+
 end ChemModel.Balance
